@@ -86,6 +86,9 @@ def deviations(b):
             v = side(); v["ops"][a_], v["ops"][b_] = v["ops"][b_], v["ops"][a_]; devs.append(("commit-transposed-%d-%d" % (a_, b_), v, "reject"))
     v = side(); v["pc"] = {"bb": 3}; devs.append(("blinding-base", v, "reject"))
     v = side(); v["pc"] = {"b": 3}; devs.append(("value-base", v, "reject" if b["gates"] >= 1 else ""))
+    if p["cbs"]:
+        # the verifier's closure fails with an error of its own: verify hands that error back (and accepts nothing)
+        v = side(); v["cbs"][0].append({"op": "fail"}); devs.append(("closure-fails", v, "GadgetError"))
     return devs
 
 
